@@ -50,6 +50,17 @@ def cases(ctx):
                                     f[(y + sy) * w + x + sx] = t[sy * tw + sx]
                             yield {"kind": "find", "dtype": rng.choice(["uint8", "bool", "int32", "float64"]),
                                    "shape": [h, w], "f": f, "tshape": [th, tw], "t": t, "layout": "C", "tlayout": "C"}
+    # large neighbourhoods in 'ignore' mode: the rank is rescaled by (samples inside)/N2 at the border, and for N2 = 49 or 98 the
+    # exact quotient n*rank/N2 is an integer for every rank that is a multiple of 7 (a rounded 1/N2 would fall one short)
+    for i in range(16 if ctx.tier == "quick" else 160):
+        three = i % 4 == 3
+        shape = [2, rng.randint(7, 9), rng.randint(7, 9)] if three else [rng.randint(7, 10), rng.randint(7, 10)]
+        bsh = [2, 7, 7] if three else [7, 7]
+        N2 = gen.size(bsh)
+        dtype = rng.choice(["uint8", "int32", "float64"])
+        yield {"kind": "rank", "dtype": dtype, "shape": shape, "f": [rng.randint(0, 40) for _ in range(gen.size(shape))],
+               "bshape": bsh, "b": [1] * N2, "mode": "ignore", "layout": "C", "blayout": "C",
+               "rank": rng.choice([7 * k for k in range(1, N2 // 7)] + [rng.randrange(N2)])}
     n = 800 if ctx.tier == "quick" else 9000
     for i in range(n):
         kind = rng.choice(["rank", "rank", "median", "mean", "tm", "find", "find"])
@@ -94,7 +105,12 @@ def cases(ctx):
             while gen.size(tsh) > 27:
                 tsh[rng.randrange(len(tsh))] = 1
             t = [rng.choice(pal + [0]) for _ in range(gen.size(tsh))]
-            yield {"kind": "tm", "dtype": dtype, "shape": shape, "f": f, "tshape": tsh, "t": t, "mode": mode, "layout": lay}
+            # 64-bit images far above 2**53 whose differences are small: the sum of squared differences is tiny and exact in the
+            # image's own type, but not if the values pass through a double
+            base = 0
+            if dtype in ("int64", "uint64") and mode in ("nearest", "wrap", "reflect", "mirror") and rng.random() < 0.7:
+                base = rng.choice([2 ** 53 + 1, 2 ** 62 + 3] + ([2 ** 63 + 7] if dtype == "uint64" else [-(2 ** 62) - 5]))
+            yield {"kind": "tm", "dtype": dtype, "shape": shape, "f": f, "tshape": tsh, "t": t, "mode": mode, "layout": lay, "base": base}
 
 
 def count_check(samples, r, v):
@@ -190,6 +206,13 @@ def run_case(ctx, case):
     if kind == "tm":
         t0i = np.array(case["t"], dtype=np.int64).reshape(case["tshape"])
         t = (t0i * scale).astype(npdt)
+        if case.get("base"):
+            bb = np.array(case["base"], dtype=npdt)
+            f0 = f0 + bb
+            f = apply_layout(f0, case["layout"], fill=1)
+            keep = f.copy()
+            t = t + bb
+            assert f0.dtype == npdt and t.dtype == npdt
         got = mh.template_match(f, t, mode=mode)
         if not np.array_equal(f, keep):
             return Result(False, True, {"why": "input modified"})
